@@ -51,7 +51,7 @@ func profile() *vtx.Profile {
 				half = c
 			}
 
-			return append(e, vtx.AdvanceMenu(m, now, []time.Duration{time.Nanosecond, time.Second}, []time.Duration{half})...)
+			return append(e, vtx.AdvanceMenu(m, now, []time.Duration{time.Nanosecond, time.Second}, []time.Duration{500 * time.Millisecond, half})...)
 		},
 	}
 }
